@@ -68,6 +68,17 @@ def contKind : Elem V Hh where
   enc := fun v => v.toList
   dec := fun bs => if bs.length = 41 then some (ByteArray.mk bs.toArray) else none
 
+/-- element that is a `Vector<u64, U8>` (64 bytes, fixed size): root = merkleize of its two chunks,
+no length mixed in. Exercises the `Vector` trait impls as an *element* (`tree_hash_type`,
+`ssz_fixed_len`, `Default`, `Deserialize`). -/
+def nestvKind : Elem V Hh where
+  pf := none
+  leafHash := fun v => Sha256.hash32Concat (v.extract 0 32) (v.extract 32 64)
+  packHash := fun _ => zero32
+  fixedLen := some 64
+  enc := fun v => v.toList
+  dec := fun bs => if bs.length = 64 then some (ByteArray.mk bs.toArray) else none
+
 /-- variable-size element: an inner `List<u8, U8>` (0..8 bytes): root = mix_in_length(chunk, n). -/
 def varKind : Elem V Hh where
   pf := none
@@ -117,6 +128,7 @@ def kindOf (name : String) : Option (Elem V Hh) :=
   | "u256" => some (basicKind 32)
   | "h256" => some h256Kind
   | "cont" => some contKind
+  | "nestv" => some nestvKind
   | "var" => some varKind
   | "nest" => some nestKind
   | "nest2" => some nest2Kind
